@@ -179,7 +179,7 @@ def campaign(ck, faults, label):
                     cls = oc.split(":")[0]
                     outcomes[cls] += 1
                     if cls in ("ok", "family"):
-                        r = (lines - faultrun.BUDGET_C / 4) / max(dlen, 1)
+                        r = lines / float(faultrun.BUDGET_K * dlen + faultrun.BUDGET_C)
                         if r > worst[0]:
                             worst = (r, (name, f.key(), e, lines, dlen))
                         continue
@@ -204,7 +204,7 @@ def campaign(ck, faults, label):
     ck.extra.setdefault("campaigns", []).append(
         {"label": label, "faults": n, "runs": sum(outcomes.values()), "outcomes": dict(outcomes),
          "defect_keys": len(defects), "wall_s": round(time.time() - t0, 1),
-         "costliest_terminating_run": {"lines_per_byte_above_C/4": round(worst[0], 1), "case": worst[1]}})
+         "costliest_terminating_run": {"fraction_of_budget": round(worst[0], 3), "case": worst[1]}})
     return defects, outcomes
 
 
